@@ -198,6 +198,7 @@ func cmdCheck(args []string) int {
 	workers := fs.Int("j", 8, "parallel obligations")
 	outDir := fs.String("out", "", "directory for evidence/ and replays/ (default /verif)")
 	writeHints := fs.Bool("write-hints", false, "update baseline/hints.json with the solver that decided each obligation")
+	writeBaseline := fs.Bool("write-baseline", false, "write baseline/<prop>.obligations (names of the obligations discharged now)")
 	fs.Parse(args)
 	if *prop == "" {
 		fmt.Fprintln(os.Stderr, "need -prop")
@@ -279,6 +280,17 @@ func cmdCheck(args []string) int {
 		b, _ := json.MarshalIndent(all, "", " ")
 		os.WriteFile(hf, b, 0o644)
 	}
+	if *writeBaseline {
+		var names []string
+		for _, w := range work {
+			if !w.O.Cover && w.R.Answer == "unsat" && len(unsupportedFuncs[w.Func]) == 0 {
+				names = append(names, w.Full)
+			}
+		}
+		sort.Strings(names)
+		os.MkdirAll(filepath.Join(verifDir, "baseline"), 0o755)
+		os.WriteFile(filepath.Join(verifDir, "baseline", *prop+".obligations"), []byte(strings.Join(names, "\n")+"\n"), 0o644)
+	}
 	findings := loadFindings(filepath.Join(verifDir, "known_findings.txt"))
 	baseline := loadBaseline(filepath.Join(verifDir, "baseline", *prop+".obligations"))
 	known := map[string]finding{}
@@ -349,8 +361,10 @@ func cmdCheck(args []string) int {
 			fmt.Printf("NOT-DISCHARGED %s: %s (%s) %s\n", w.Full, w.R.Answer, w.R.Solver, w.O.Clause)
 		}
 		inBaseline := baseline == nil || baseline[w.Full]
-		if tainted && w.R.Answer != "sat" {
-			undecided = append(undecided, w.Full+" (function uses unsupported construct)")
+		if tainted && (!inBaseline || onlyMissingContracts(unsupportedFuncs[w.Func])) {
+			// a new dependency without a contract (or an obligation never claimed):
+			// undecided, not an alarm
+			undecided = append(undecided, w.Full+" (function uses a construct or callee outside the contracted subset)")
 			continue
 		}
 		if !inBaseline && w.R.Answer != "sat" {
@@ -573,4 +587,17 @@ func (p *Program) resolveMethod(pkgName, name string) *ssa.Function {
 		return nil
 	}
 	return p.prog.MethodValue(sel)
+}
+
+// onlyMissingContracts: the function is outside the verified subset only
+// because it calls something that has no contract (e.g. a library function
+// introduced by a refactoring) - as opposed to its contract no longer
+// matching the code.
+func onlyMissingContracts(reasons []string) bool {
+	for _, r := range reasons {
+		if !strings.Contains(r, "without contract") && !strings.Contains(r, "without interface contract") {
+			return false
+		}
+	}
+	return len(reasons) > 0
 }
